@@ -12,6 +12,9 @@ def threads():
 PROPS = {
     "C08": {
         "modes": ["dbg", "rel"],
+        "technique": "runtime monitoring: panic / allocation / CPU-time monitors + output-length oracle over exhaustive short inputs and grammar-aware hostile streams, debug and release builds",
+        "level_text": "Every decode is executed on the real BitmapEvent::decompress under a panic recorder, a counting allocator and a thread-CPU watchdog, and its result length is compared with width*height*4. All data strings up to length 2 are enumerated over 64 small geometries (length 3 in the thorough tier); beyond that, coverage comes from grammar-aware hostile generation, so the claim is 'held on the N executions listed in the evidence', in both overflow-checking and release builds.",
+        "level_note": "Trusted: the harness's counting allocator and panic hook; geometry is bounded by 512x512 for generated cases; inputs longer than 3 bytes are generated, not enumerated.",
         "level": "fault_enumeration",
         "rule": ("cases = (width, height, bpp, compression flag, data) fed to BitmapEvent::decompress under panic, allocation and CPU-time monitors; "
                  "classes: all data strings of length <=2 (thorough: <=3 for w,h<=2) over 64 small geometries at 16 and 32 bpp compressed (exhaustive), "
